@@ -175,6 +175,23 @@ impl ElementMap for TransformerContext {
     }
 
     fn get_element_bbox(&self, el: &SvgElement) -> Result<Option<BoundingBox>> {
+        self.get_clipped_bbox(el, &mut Vec::new())
+    }
+}
+
+impl TransformerContext {
+    /// bbox of an element, following (and detecting cycles in) clip-path references
+    fn get_clipped_bbox(
+        &self,
+        el: &SvgElement,
+        seen: &mut Vec<crate::types::OrderIndex>,
+    ) -> Result<Option<BoundingBox>> {
+        if seen.contains(&el.order_index) {
+            return Err(SvgdxError::CircularRefError(format!(
+                "clip-path of {el} already seen"
+            )));
+        }
+        seen.push(el.order_index.clone());
         let target_el = el.get_target_element(self)?;
         let mut el_bbox = target_el.bbox()?;
 
@@ -204,7 +221,7 @@ impl ElementMap for TransformerContext {
                 .get_element(&clip_id)
                 .ok_or(SvgdxError::ReferenceError(clip_id))?;
             if let ("clipPath", Some(clip_bbox)) =
-                (clip_el.name.as_str(), self.get_element_bbox(clip_el)?)
+                (clip_el.name.as_str(), self.get_clipped_bbox(clip_el, seen)?)
             {
                 el_bbox = bbox.intersect(&clip_bbox);
             }
